@@ -137,6 +137,18 @@ func checkLockSite(c *core.Ctx, s lockSite, key string) {
 			if isLockerCall(&d.Call, "Unlock") && lockerIdentity(d.Call.Value) == s.cell {
 				formA = true
 			}
+			// defer func() { lock.Unlock() }(): the closure's entry block unlocks the captured locker unconditionally
+			if mc, ok := d.Call.Value.(*ssa.MakeClosure); ok {
+				if cl, ok := mc.Fn.(*ssa.Function); ok && len(cl.Blocks) > 0 {
+					for _, ci := range cl.Blocks[0].Instrs {
+						if cc := ssax.CallOf(ci); isLockerCall(cc, "Unlock") && lockerIdentity(cc.Value) == s.cell {
+							if _, isDefer := ci.(*ssa.Defer); !isDefer {
+								formA = true
+							}
+						}
+					}
+				}
+			}
 			break
 		}
 		if ssax.CallOf(nx) != nil {
